@@ -221,6 +221,24 @@ def run(ctx):
     ext = calls_named(gf, "extend")
     ok = guard and len(ext) == 1 and field_of(ext[0][2][0], "parameters") and ext[0][2][1][0] == "param"
     check("K5|forked-constructor", ok, gf.loc(), "Gate::forked is not guarded by `alt_params.len() != parameters.len()` or does not append the alternative parameters after the existing ones", "forked(q, [b]) on RX(a) yields parameters in the wrong halves")
+    # the constructors always add their modifier (and qubit): the inserts are unconditional (forked: only behind its length
+    # guard) and nothing is removed from the modifier list
+    for f_, nm, n_ins in ((gd, "dagger", 1), (gc, "controlled", 2), (gf, "forked", 2)):
+        key = "K7|constructor-unconditional|%s" % nm
+        ins = calls_named(f_, "insert")
+        removes = sorted({c.get("name") for bb, t, c in f_.calls() if c and c.get("name") in ("retain", "remove", "pop", "clear", "truncate", "drain", "dedup", "swap_remove")})
+        conds = []
+        for bb, t, a in ins:
+            for sb, tgt in f_.control_deps(bb, transitive=False):
+                tt = f_.blocks[sb]["t"]
+                e = fn_expr_operand(f_, tt["d"]) if tt["k"] == "switch" else ("x",)
+                if nm == "forked" and e[0] == "bin" and e[1] in ("Ne", "Eq"):
+                    continue
+                conds.append(str(e[:2])[:60])
+        ok = len(ins) == n_ins and not removes and not conds
+        res.site(key, True, {"inserts": len(ins), "removing_calls": removes, "conditions": conds, "verdict": "ok" if ok else "VIOLATION"})
+        if not ok:
+            res.find(key, f_.loc(), "Gate::%s does not always add its modifier%s (inserts: %d, conditions: %s, removing calls: %s)" % (nm, "" if nm == "dagger" else " and qubit", len(ins), conds, removes), "`DAGGER DAGGER S 0`.dagger() comes back without any DAGGER")
     # R5 program folds
     dots = calls_named(pu, "dot")
     ok = False
